@@ -141,6 +141,12 @@ def Front.stepElem {γ : Type} (f : Front) (isLeft : Bool) (r : Nat) (wrap : γ 
   let fed := feed f.start g (pre ++ [e.map wrap])
   ({ f with missL := if rearm then f.nL else mL, missR := if rearm then f.nR else mR, start := fed.1 }, fed.2)
 
+/-- a receive timeout of the `Start` (start/mod.rs:284-300): the fake `FlushBatch`, preceded by a
+    pending frontier announcement (`pending_watermark`) if there is one -/
+def Front.timeout (f : Front) : Front × List (Elem (Bin α β)) :=
+  ({ f with start := (Noir.Start.step (α := Bin α β) f.start .timeout).1 },
+   (Noir.Start.step (α := Bin α β) f.start .timeout).2)
+
 /-- an arrival: side, replica, element -/
 abbrev Arrival (γ : Type) := Bool × Nat × Elem γ
 
